@@ -218,6 +218,57 @@ def work(arg):
     return u
 
 
+# ---- grammar-import family: abstract rules of the SAME NAME in the importing and the imported grammar -----------------
+IMP_FILES = {
+    "main": "import lib\nModel: s=Shape;\nShape: Figure | Sq;\nSq: 'sq' n=INT;\n",
+    "lib": "Figure: Shape | Tri;\nShape: Dot | Line;\nDot: 'dot' x=INT;\nLine: 'line' y=INT;\nTri: 'tri' z=INT;\n",
+}
+# what each abstract rule stands for (first non-match reference of every alternative), by fully qualified name
+IMP_INH = {"main.Shape": ["lib.Figure", "main.Sq"], "lib.Figure": ["lib.Shape", "lib.Tri"], "lib.Shape": ["lib.Dot", "lib.Line"]}
+IMP_INPUTS = {"dot 1": "lib.Dot", "line 2": "lib.Line", "tri 3": "lib.Tri", "sq 4": "main.Sq"}
+
+
+def work_imports(arg):
+    import os
+
+    from mc import core
+    from textx import metamodel_from_file, textx_isinstance
+
+    u = Unit()
+    d = os.path.join(core.rundir(), "c03imp-%d" % os.getpid())
+    os.makedirs(d, exist_ok=True)
+    for fn, text in IMP_FILES.items():
+        with open(os.path.join(d, fn + ".tx"), "w") as f:
+            f.write(text)
+    try:
+        mm = metamodel_from_file(os.path.join(d, "main.tx"))
+    except Exception as e:
+        u.case(["imports", "compile"], nontrivial=True)
+        u.fail(["imports", "compile"], {"imports": True}, sig="imports compile", what="%s: %s" % (type(e).__name__, str(e)[:200]))
+        return u
+
+    def reach(rule, cls, seen=()):
+        if rule == cls:
+            return True
+        return any(reach(x, cls, seen + (rule,)) for x in IMP_INH.get(rule, []) if x not in seen)
+    rules = sorted(set(IMP_INH) | {x for v in IMP_INH.values() for x in v})
+    for text, cls in IMP_INPUTS.items():
+        m = mm.model_from_str(text)
+        got_cls = type(m.s)._tx_fqn
+        u.case(["imports", text], nontrivial=True, sample={"input": text, "class": got_cls})
+        if got_cls != cls:
+            u.fail(["imports", text], {"imports": True}, sig="imports class", what="input %r yields %s, expected %s" % (text, got_cls, cls))
+            continue
+        for r in rules:
+            want = reach(r, cls)
+            got = bool(textx_isinstance(m.s, mm[r]))
+            u.count("isinstance checks (grammar imports)")
+            if want != got:
+                u.fail(["imports", text, r], {"imports": True}, sig="imports isinstance %s" % want,
+                       what="grammar files %s | input %r | textx_isinstance(%s object, %s) reference=%s implementation=%s" % (IMP_FILES, text, cls, r, want, got))
+    return u
+
+
 def run(ctx):
     c01.selfcheck()
     units = []
@@ -234,6 +285,7 @@ def run(ctx):
         B = 25
         units += [(ctx.tier, L_, cap, gs[i:i + B]) for i in range(0, len(gs), B)]
     ctx.pmap(work, units)
+    ctx.pmap(work_imports, [None])
     return {
         "rule": "case = (grammar, input) plus one kinds-case per grammar; grammars = all assignments of bodies (single item or ordered pair of "
                 "distinct items as a two-way choice) to n attribute-less rules, all rules reachable from the root; plan (n, max tokens, input cap) = %s; "
@@ -245,6 +297,9 @@ def run(ctx):
 
 
 def replay(p):
+    if p.get("imports"):
+        u = work_imports(None)
+        return not u.fails, {"failures": [f["what"] for f in u.fails][:5]}
     g = c01.totuple(p["grammar"])
     u = Unit()
     if p.get("input") is None and p.get("check") != "kinds":
